@@ -33,7 +33,7 @@ def check_table(groups, metrics, rows):
                 v = None
                 if c != "":
                     f = float(c)
-                    if not (math.isnan(f) or f == math.inf):
+                    if not (math.isnan(f) or math.isinf(f)):
                         v = f
                 vals.append(v)
             col[(g, m)] = vals
@@ -75,7 +75,7 @@ def _random_table(rng, ng, nm, ns):
         cells = []
         for _ in range(ng * nm):
             r = rng.random()
-            cells.append("" if r < 0.2 else "nan" if r < 0.3 else "inf" if r < 0.4 else repr(rng.choice([2.5e-05, 3e+16, -1.25e-07, 1e22, 7.0])) if r < 0.5 else repr(round(rng.uniform(-2, 5), 3)))
+            cells.append("" if r < 0.2 else "nan" if r < 0.3 else "inf" if r < 0.37 else "-inf" if r < 0.4 else repr(rng.choice([2.5e-05, 3e+16, -1.25e-07, 1e22, 7.0])) if r < 0.5 else repr(round(rng.uniform(-2, 5), 3)))
         rows.append((f"subj{s}", cells))
     return groups, metrics, rows
 
